@@ -6,6 +6,6 @@ using namespace smt;
 
 namespace ratio
 {
-    resolver::resolver(const rational &cost, flaw &eff) : resolver(lit(eff.slv.get_sat_core().new_var()), cost, eff) {}
-    resolver::resolver(const lit &r, const rational &cost, flaw &eff) : slv(eff.slv), rho(r), intrinsic_cost(cost), effect(eff) {}
+    resolver::resolver(const rational &cost, flaw &eff) : slv(eff.slv), rho(lit(eff.slv.get_sat_core().new_var())), intrinsic_cost(cost), effect(eff), own_rho(true) {}
+    resolver::resolver(const lit &r, const rational &cost, flaw &eff) : slv(eff.slv), rho(r), intrinsic_cost(cost), effect(eff), own_rho(false) {}
 } // namespace ratio
